@@ -255,3 +255,86 @@ def case_tcoll(ctx, cfg):
             if bad:
                 ctx.fail(f"tcoll:apply:{XF.kind_name(d)}", "tc*x", {"dim": dim, "object": d, "generator": nm}, XF.state_json(want), np.asarray(elem.array))
                 return
+
+
+# ---------------------------------------------------------------------------------------------------
+# history: inverse / powers / application after the matrix of the same object was changed
+
+
+def enum_mutation(tier, seed):
+    for dim in (2, 3):
+        for g in ("shear", "proj", "det2", "rot345", "detm3"):
+            yield (dim, g)
+
+
+@family("C06", "inverse_after_change", enum_mutation)
+def case_mutation(ctx, cfg):
+    import geometer as G
+
+    dim, g = cfg
+    n = dim + 1
+    M = XF.gens(dim)[g]
+    x = XF.build(G, XF.pool(dim)[3])  # a hyperplane: transformed with the inverse matrix
+    stx = XF.exact_state(G, XF.pool(dim)[3], x)
+    ctx.state(cfg)
+
+    def consistent(t, Mexact, tag):
+        inv, e = ctx.call(t.inverse)
+        ctx.trace()
+        if e is not None or not proj_eq(inv.array, XF.mat_np(X.inv(Mexact))):
+            ctx.fail(f"inverse:{tag}", "inverse", {"dim": dim, "generator": g, "history": tag}, XF.mat_np(X.inv(Mexact)), e if e is not None else inv.array)
+            return False
+        y, e = ctx.call(lambda: t * x)
+        bad = "exception" if e is not None else XF.agrees(y, XF.act(Mexact, stx))
+        if bad:
+            ctx.fail(f"apply:{tag}", "t*hyperplane", {"dim": dim, "generator": g, "history": tag}, XF.state_json(XF.act(Mexact, stx)), e if e is not None else y.array)
+            return False
+        p, e = ctx.call(lambda: t**-2)
+        if e is not None or not proj_eq(p.array, XF.mat_np(X.inv(X.matmul(Mexact, Mexact)))):
+            ctx.fail(f"pow:{tag}", "t**-2", {"dim": dim, "generator": g, "history": tag}, XF.mat_np(X.inv(X.matmul(Mexact, Mexact))), e if e is not None else p.array)
+            return False
+        return True
+
+    t = G.Transformation(XF.mat_np(M))
+    if not consistent(t, M, "fresh"):
+        return
+    # (1) item assignment on the same object
+    M2 = [list(r) for r in M]
+    M2[0][n - 1] = M2[0][n - 1] + 3
+    t[0, n - 1] = float(M2[0][n - 1])
+    if not consistent(t, M2, "after-item-assignment"):
+        return
+    # (2) a copy that received another matrix
+    t2 = G.Transformation(XF.mat_np(M))
+    _ = ctx.call(t2.inverse)
+    t3 = t2.copy()
+    t3.array = XF.mat_np(M2)
+    if not consistent(t3, M2, "copy-with-new-array-after-inverse"):
+        return
+    if not consistent(t2, M, "original-after-copy-changed"):
+        return
+    # (3) collections: expand_dims after inverse
+    names = ["shear", "proj", "det2"]
+    tc = G.TransformationCollection(np.stack([XF.mat_np(XF.gens(dim)[nm]) for nm in names]))
+    _ = ctx.call(tc.inverse)
+    te, e = ctx.call(tc.expand_dims, 0)
+    ti, e2 = ctx.call(te.inverse) if e is None else (None, e)
+    ctx.trace()
+    ok = e2 is None and ti.array.shape == (1, 3, n, n) and all(proj_eq(ti.array[0, i], XF.mat_np(X.inv(XF.gens(dim)[nm]))) for i, nm in enumerate(names))
+    if not ok:
+        ctx.fail("inverse:collection-after-expand_dims", "expand_dims(0).inverse()", {"dim": dim}, "elementwise inverses of shape (1, 3, n, n)", e2 if e2 is not None else list(ti.array.shape))
+        return
+    pts = G.PointCollection(np.arange(3 * n).reshape(3, n) % 5 + 1.0)
+    img, e = ctx.call(lambda: te * G.PlaneCollection(pts.array) if dim == 3 else te * G.LineCollection(pts.array))
+    if e is None:
+        for i, nm in enumerate(names):
+            want = np.array([float(v) for v in X.matvec(X.transpose(X.inv(XF.gens(dim)[nm])), [F_(v) for v in pts.array[i]])])
+            if not proj_eq(np.asarray(img.array)[0, i], want):
+                ctx.fail("apply:collection-after-expand_dims", "tc.expand_dims(0) * hyperplanes", {"dim": dim, "generator": nm}, want, np.asarray(img.array)[0, i])
+                return
+
+
+def F_(v):
+    from fractions import Fraction
+
+    return Fraction(float(v))
